@@ -8,7 +8,7 @@ import "bytes"
 
 // VerifPoolHook, when set, observes every buffer handed out by (get=true) or
 // returned to (get=false) a buffer pool.
-var VerifPoolHook func(get bool, pool *bufferPool, buffer *bytes.Buffer)
+var VerifPoolHook func(get bool, pool any, buffer *bytes.Buffer)
 
 // VerifPoolPoison makes Put overwrite the released buffer's memory, so that a
 // stale alias shows up as a corrupted payload instead of going unnoticed.
